@@ -103,12 +103,9 @@ template<class Src, class Dest>
                 vf::violation("float_to_fixed/" + o.str(), id(), id() + ": " + o.str() + ", expected rep " + want.str());
             } else if (got != want) {
                 bool off_by_one = (got - want).abs() == Big(1);
-                if (!exact_scaling && off_by_one && inexact) {
-                    vf::outcome("decimal_scaling_off_by_one");  // not judged: decimal scaling of a binary float
-                } else {
-                    vf::outcome("wrong_value");
-                    vf::violation(std::string("float_to_fixed/value/") + (inexact ? "truncating" : "exact") + (exact_scaling ? "" : "/decimal"), id(), id() + ": rep " + got.str() + ", expected " + want.str());
-                }
+                vf::outcome(exact_scaling ? "wrong_value" : "wrong_value_decimal");
+                // decimal scales of a binary floating-point value: a class of its own (the scaling factor is not exact)
+                vf::violation(std::string("float_to_fixed/value/") + (inexact ? "truncating" : "exact") + (exact_scaling ? "" : (off_by_one ? "/decimal/off_by_one" : "/decimal/off_by_more")), id(), id() + ": rep " + got.str() + ", expected " + want.str());
             } else
                 vf::outcome(inexact ? (want.neg || v.sign() < 0 ? "ok_truncated_negative" : "ok_truncated") : "ok_exact");
         }
@@ -118,13 +115,34 @@ template<class Src, class Dest>
         using RepS = typename SS::rep;
         bool full = cv::space_is_full<RepS>(fullbits);
         if (!vf::begin(name, full)) return;
-        for (auto const& a : cv::space<RepS>(fullbits, 1)) {
+        auto srcs = cv::space<RepS>(fullbits, 1);
+        if (!full) {
+            // rounding-tie lattice of the destination format: 2^k + 2^(k-p) is exactly half-way between two
+            // neighbours of a p-bit significand; +-1 and +-2^j below it exercise sticky bits that an
+            // intermediate rounding (e.g. through double) would lose
+            constexpr int p = ref::fmt<Dest>::p;
+            int const digits = cv::max_of<RepS>().bit_length();
+            for (int k = p; k < digits; ++k)
+                for (int odd = 0; odd <= 1; ++odd) {
+                    Big tie = Big::pow2(k) + (odd ? Big::pow2(k - p + 1) : Big(0)) + Big::pow2(k - p);
+                    for (Big d : {Big(0), Big(1), Big(-1), k - p > 30 ? Big::pow2(k - p - 30) : Big(2), k - p > 30 ? -Big::pow2(k - p - 30) : Big(-2)})
+                        for (int sgn : {1, -1}) {
+                            Big c = Big(sgn) * (tie + d);
+                            if (cv::fits<RepS>(c)) srcs.push_back(c);
+                        }
+                }
+        }
+        for (auto const& a : srcs) {
             if (!vf::my_row()) continue;
             auto id = [&] { return a.str(); };
             if (vf::replaying() && !vf::case_selected(id())) continue;
             Rat v = Rat::scaled(a, radix, se);
             bool ov;
             Rat want = ref::round_to_format<Dest>(v, ov);
+            if (ov) {  // beyond the largest finite value of the floating type: outside the property
+                vf::skip_pre();
+                continue;
+            }
             Src s = build<Src>(a);
             Dest got{};
             vf::Outcome o = vf::run([&] { got = static_cast<Dest>(s); });
@@ -137,13 +155,20 @@ template<class Src, class Dest>
                 vf::violation("fixed_to_float/" + o.str(), id(), id() + ": " + o.str());
                 continue;
             }
+            if (!std::isfinite(got)) {
+                vf::outcome("non_finite");
+                vf::violation("fixed_to_float/non_finite", id(), id() + ": got " + vf::to_s(got) + ", expected " + want.str());
+                continue;
+            }
             Rat g = ref::to_rat(got);
             if (g != want) {
-                if (radix != 2 && !rounded) {
-                    vf::outcome("wrong_value");
-                    vf::violation("fixed_to_float/value/decimal_exactly_representable", id(), id() + ": got " + vf::to_s(got) + ", the exact value " + v.str() + " is representable");
-                } else if (radix != 2) {
-                    vf::outcome("decimal_scaling_not_correctly_rounded");  // reported, not judged (see DESIGN)
+                if (radix != 2) {
+                    // decimal scales: a class of its own (rep conversion and the power of ten both round)
+                    bool ovn;
+                    Rat lo = ref::round_to_format<Dest>(g, ovn);
+                    (void)lo;
+                    vf::outcome("wrong_value_decimal");
+                    vf::violation(std::string("fixed_to_float/value/decimal/") + (rounded ? "needs_rounding" : "exactly_representable"), id(), id() + ": got " + vf::to_s(got) + ", correctly rounded value of " + v.str() + " is " + want.str());
                 } else {
                     vf::outcome("wrong_value");
                     vf::violation(std::string("fixed_to_float/value/") + (rounded ? "needs_rounding" : "exactly_representable"), id(), id() + ": got " + vf::to_s(got) + " = " + g.str() + ", correctly rounded value is " + want.str());
